@@ -83,11 +83,24 @@ def run(sdir, props):
                     why = "[no-failing-input-found] " + why
             except Exception:
                 pass
-        verdicts[p] = verdict
+        verdicts[p] = {"verdict": verdict, "no_failing_input": bool(viol and viol[0].rstrip().endswith("no-failing-input-found")),
+                       "why": why[:400]}
         print("%s %s %s %s" % (name, p, verdict, why[:260]), flush=True)
         if verdict.startswith("ERROR"):
             print(out[-1500:])
-    json.dump(verdicts, open(os.path.join(os.path.abspath(sdir), "verdicts.json"), "w"), indent=1)
+    vf = os.path.join(os.path.abspath(sdir), "verdicts.json")
+    old = {}
+    try:
+        old = json.load(open(vf))
+    except Exception:
+        pass
+    for k, v in list(old.items()):      # earlier format: plain strings
+        if isinstance(v, str):
+            old[k] = {"verdict": v, "no_failing_input": None, "why": "", "stale": True}
+        else:
+            v["stale"] = True
+    old.update(verdicts)
+    json.dump(old, open(vf, "w"), indent=1, sort_keys=True)
     shutil.rmtree(root, ignore_errors=True)
     return 0
 
